@@ -4,10 +4,11 @@ from common import hexs
 
 ID = "C15"
 DRIVER = "pending"
-MODEL_FILES = ["Model/Pending.v"]
+MODEL_FILES = ["Model/Pending.v", "Model/Cluster.v"]
 THEOREMS = ["C15_counts_inv", "C15_ack_unknown_noop", "C15_ack_duplicate_noop", "C15_ack_foreign_noop",
             "C15_pending_iff", "C15_pending_count", "C15_outputs_refine", "C15_drained",
-            "C15_spec_reg", "C15_spec_ack", "C15_example_wf", "C15_double_register_sticks"]
+            "C15_spec_reg", "C15_spec_ack", "C15_example_wf", "C15_double_register_sticks",
+            "C15_fan_out_wf", "C15_fan_out_pending_iff", "C15_fan_out_all_acked", "C15_fan_out_reused_id_sends_old_text"]
 STRENGTH = {t: "proof-unbounded" for t in THEOREMS}
 STRENGTH["C15_example_wf"] = "example (non-vacuity)"
 STRENGTH["C15_double_register_sticks"] = "example (wf hypothesis is necessary)"
